@@ -47,6 +47,7 @@ type scheduler struct {
 	timersNondet bool
 	deterministic bool
 	atomicSwitch  bool // sync/atomic operations are scheduling points (verifrt.AtomicSwitch)
+	timersRacy    bool  // timers may fire at scheduling points (verifrt.TimersRacy)
 	vclockOn      bool  // virtual-clock mode (verifrt.AdvanceTime): timers fire in order of their due time
 	now           int64 // virtual time, nanoseconds
 }
@@ -136,15 +137,36 @@ func (s *scheduler) switchPoint(kind string) {
 		return
 	}
 	en := s.enabled()
-	if len(en) <= 1 {
+	// racy timers (verifrt.TimersRacy): a pending timer may also fire here, while
+	// goroutines are still running - a deadline that expires in the middle of the
+	// work it guards. Costs one preemption, like a hand-over.
+	racy := s.timersRacy && s.hasPendingTimer()
+	n := len(en)
+	if racy {
+		n++
+	}
+	if n <= 1 {
 		return
 	}
-	c := P.decide(len(en), "sched:"+kind)
+	c := P.decide(n, "sched:"+kind)
 	if c == 0 {
 		return
 	}
 	s.preempt--
+	if c == len(en) {
+		s.fireTimer()
+		return
+	}
 	s.transfer(en[c])
+}
+
+func (s *scheduler) hasPendingTimer() bool {
+	for _, t := range s.timers {
+		if !t.stopped && (t.fires == 0 || (t.periodic && t.fires < s.tickLimit)) {
+			return true
+		}
+	}
+	return false
 }
 
 func (s *scheduler) describeBlocked() string {
